@@ -140,7 +140,7 @@ func lcBody(d lcDesc) func() {
 				}
 				r := curRound()
 				st.shutRound[k] = r
-				if r >= 0 && st.Ls[r].Waiting > 0 {
+				if r >= 0 && st.Ls[r].Blocked() {
 					st.shutPark[k] = r
 				}
 				st.shutStart[k] = w.ev("shutdown-start %d round=%d parked=%d", k, r, st.shutPark[k])
@@ -447,16 +447,12 @@ func scenariosC14(tier string) []Scen {
 		if d.Late {
 			n++
 		}
-		bound := 2
-		if tier == "quick" {
-			if n > 3 || d.Rounds == 2 {
-				bound = 1
-			}
-		} else {
-			bound = 3
-			if n > 3 || d.Rounds == 2 {
-				bound = 2
-			}
+		bound := 3
+		if n > 3 || d.Rounds == 2 {
+			bound = 2
+		}
+		if tier != "quick" {
+			bound++
 		}
 		out = append(out, Scen{Desc: d, Bound: bound, Body: lcBody(d), Check: lcCheck14, Obs: lcObs})
 	}
